@@ -1276,7 +1276,6 @@ class NodeListComprehension:
         values = getCollectionValue(lst, self.what)
         for listValue in values:
             localEnv.put(self.identifier, listValue)
-            value = self.valueExpr.evaluate(localEnv)
             if self.conditionExpr:
                 condition = self.conditionExpr.evaluate(localEnv)
                 if not condition.isBoolean():
@@ -1287,9 +1286,9 @@ class NodeListComprehension:
                         self.pos,
                     )
                 if condition.value:
-                    result.addItem(value)
+                    result.addItem(self.valueExpr.evaluate(localEnv))
             else:
-                result.addItem(value)
+                result.addItem(self.valueExpr.evaluate(localEnv))
         return result
 
     def __repr__(self):
@@ -1359,7 +1358,6 @@ class NodeListComprehensionParallel:
             listValue2 = values2[i] if i < len(values2) else None
             localEnv.put(self.identifier1, listValue1)
             localEnv.put(self.identifier2, listValue2)
-            value = self.valueExpr.evaluate(localEnv)
             if self.conditionExpr:
                 condition = self.conditionExpr.evaluate(localEnv)
                 if not condition.isBoolean():
@@ -1370,9 +1368,9 @@ class NodeListComprehensionParallel:
                         self.pos,
                     )
                 if condition.value:
-                    result.addItem(value)
+                    result.addItem(self.valueExpr.evaluate(localEnv))
             else:
-                result.addItem(value)
+                result.addItem(self.valueExpr.evaluate(localEnv))
         return result
 
     def __repr__(self):
@@ -1449,7 +1447,6 @@ class NodeListComprehensionProduct:
             localEnv.put(self.identifier1, listValue1)
             for listValue2 in values2:
                 localEnv.put(self.identifier2, listValue2)
-                value = self.valueExpr.evaluate(localEnv)
                 if self.conditionExpr:
                     condition = self.conditionExpr.evaluate(localEnv)
                     if not condition.isBoolean():
@@ -1460,9 +1457,9 @@ class NodeListComprehensionProduct:
                             self.pos,
                         )
                     if condition.value:
-                        result.addItem(value)
+                        result.addItem(self.valueExpr.evaluate(localEnv))
                 else:
-                    result.addItem(value)
+                    result.addItem(self.valueExpr.evaluate(localEnv))
         return result
 
     def __repr__(self):
@@ -1578,8 +1575,6 @@ class NodeMapComprehension:
         values = getCollectionValue(lst, self.what)
         for listValue in values:
             localEnv.put(self.identifier, listValue)
-            key = self.keyExpr.evaluate(localEnv)
-            value = self.valueExpr.evaluate(localEnv)
             if self.conditionExpr:
                 condition = self.conditionExpr.evaluate(localEnv)
                 if not condition.isBoolean():
@@ -1590,9 +1585,15 @@ class NodeMapComprehension:
                         self.pos,
                     )
                 if condition.value:
-                    result.addItem(key, value)
+                    result.addItem(
+                        self.keyExpr.evaluate(localEnv),
+                        self.valueExpr.evaluate(localEnv),
+                    )
             else:
-                result.addItem(key, value)
+                result.addItem(
+                    self.keyExpr.evaluate(localEnv),
+                    self.valueExpr.evaluate(localEnv),
+                )
         return result
 
     def __repr__(self):
@@ -1944,7 +1945,6 @@ class NodeSetComprehension:
         values = getCollectionValue(lst, self.what)
         for listValue in values:
             localEnv.put(self.identifier, listValue)
-            value = self.valueExpr.evaluate(localEnv)
             if self.conditionExpr:
                 condition = self.conditionExpr.evaluate(localEnv)
                 if not condition.isBoolean():
@@ -1955,9 +1955,9 @@ class NodeSetComprehension:
                         self.pos,
                     )
                 if condition.value:
-                    result.addItem(value)
+                    result.addItem(self.valueExpr.evaluate(localEnv))
             else:
-                result.addItem(value)
+                result.addItem(self.valueExpr.evaluate(localEnv))
         return result
 
     def __repr__(self):
@@ -2020,7 +2020,6 @@ class NodeSetComprehensionParallel:
             localEnv.put(
                 self.identifier2, values2[i] if i < len(values2) else NULL
             )
-            value = self.valueExpr.evaluate(localEnv)
             if self.conditionExpr:
                 condition = self.conditionExpr.evaluate(localEnv)
                 if not condition.isBoolean():
@@ -2031,9 +2030,9 @@ class NodeSetComprehensionParallel:
                         self.pos,
                     )
                 if condition.value:
-                    result.addItem(value)
+                    result.addItem(self.valueExpr.evaluate(localEnv))
             else:
-                result.addItem(value)
+                result.addItem(self.valueExpr.evaluate(localEnv))
         return result
 
     def __repr__(self):
@@ -2104,7 +2103,6 @@ class NodeSetComprehensionProduct:
             localEnv.put(self.identifier1, value1)
             for value2 in values2:
                 localEnv.put(self.identifier2, value2)
-                value = self.valueExpr.evaluate(localEnv)
                 if self.conditionExpr:
                     condition = self.conditionExpr.evaluate(localEnv)
                     if not condition.isBoolean():
@@ -2115,9 +2113,9 @@ class NodeSetComprehensionProduct:
                             self.pos,
                         )
                     if condition.value:
-                        result.addItem(value)
+                        result.addItem(self.valueExpr.evaluate(localEnv))
                 else:
-                    result.addItem(value)
+                    result.addItem(self.valueExpr.evaluate(localEnv))
         return result
 
     def __repr__(self):
